@@ -7,14 +7,14 @@ CONFIG = {
     "design_ref": "4.10",
     "technique": "Lean 4 proof over an ownership model (heap of allocations, owning / borrowing string fields, term index, stores, clone/drop/move/swap/take, terms cloned out of a store and kept) whose `clone` and whose lent term type are the ones the source defines (regenerated from inmem/src/index.rs); cfg-guarded pointer-provenance audit hook + differential over histories on twenty store types (Light/Fast x dataset/graph + bare index, x u32 / u16 / usize / a six-term index type)",
     "level_text": "Proof ABOUT THE OWNERSHIP MODEL lean/SophiaModel/Model/Heap.lean, for all histories, any number of stores, all terms incl. owned quoted triples, every index width, both ways a caller's term can reach a store (allocations never reused; MownStr = owning or borrowing pointer; SimpleTermIndex = keys owning their buffers + i2t entries borrowing from them via the transmute of ensure_index; every string of every inserted term goes through the model's `ensureOwned`, in the is_owned or the copy branch as `World.own` / op `via` selects). PROVED for the manual `impl Clone` (the one the tree has: obligation cloneKind_is): (1) MEMORY SAFETY: every operation preserves the index invariant (sc_preserved: borrowed strings of a store's i2t point into buffers owned by keys of the same store, unique ownership, liveness, AND positionally: key j is mapped to j, has entry j's shape, owns every buffer entry j borrows, both read the same term, no two keys are Term::eq = C01's I2 carried in the heap model), hence after ANY interleaving of insert / remove / clone / clone_from / drop (either side first) / swap / move / Box / mem::take / iteration / change of feeding mode no read of a live store touches released memory and nothing is released twice (no_dangling, c10_holds_gen), and the audit vector the hook computes is clean for every entry of every store (audit_clean, audit_clean_run, keys_unique; for either Clone on clone-free histories audit_clean_partial; never more than MAX entries, refused insertions leave nothing behind: index_sized, ensure_index_full_refused). (2) CLONES ARE VALUES, at full strength: read through the heap every store is a value of the model C01's theorems are about, and every operation of the ownership model IS the operation of a value-semantics world where clone copies, drop forgets, moves rename and an operation touches the named values only (value_semantics_step, value_semantics = the driver's oracle o.k.C as a theorem; index_refines: get_index / insert / remove refine the Store functions; clone_is_copy: the clone's terms are EXACTLY the original's); clone_same_content, clone_original_unchanged, clone_independent, mv_/box_/swap_/take_same_content are corollaries kept for readability. (3) every reachable graph / dataset satisfies C01's representation invariant (reachable_store_inv), which DISCHARGES the hypothesis of unwrap_unchecked_safe: the values handed to `unwrap_unchecked` in inmem/src/dataset/_iter.rs are Some in every reachable world (unwrap_unchecked_safe_reachable). (4) ensure_owned: both branches are run by World.step; whichever is taken the result owns a fresh live buffer with the argument's bytes, the two branches leave the same heap and string (ensure_owned_sound, ensure_owned_branches_agree, from_term_sound). (5) what the model assumes about the crate mownstr (bytes out of line, Clone of a borrowed string copies the pointer, Drop releases iff owned, From<Box<str>> takes the buffer, borrowed() is a pointer copy) is recognised in its source on every run (mownstr_as_modelled); growth / moves / Box / swap / take touch no buffer (moves_keep_buffers) — in the model this is what `out of line` means. REFUTED by kernel-checked witnesses: the statement for `#[derive(Clone)]` (derive_clone_dangles, repaired in a16feec), and the second sentence of the property at full strength (C10Full) for the tree AS IT IS: the index declares `type Term = SimpleTerm<'static>`, so safe code may keep `get_term(i).clone()` beyond the store (escape_dangles, c10_full_refuted; known finding C10-lent-term-clone-outlives-store, confirmed with Miri, recorded not repaired); with the term type of the proposed, NOT applied, API-changing notes/fixes/C10-indexed-term-lifetime.diff C10Full would hold (escape_bounded_safe), and for every history that keeps no lent term it holds either way (c10_full_partial). Which Clone and which term type the source has is regenerated on every run (Gen/CloneKind.lean; fail-closed). NOT proof: that std's HashMap / Vec / Box move their elements bitwise and that rustc behaves as the ownership model says; undefined behaviour in general is outside any model. The tie is the differential: after every operation of every history the hook `verif_audit` and the full content of every safely readable store are compared with the model, and kept clones of lent terms are checked against the blocks released since (address ranges only, never dereferenced).",
-    "level_note": "Trusted: the ownership model's reading of std (HashMap/Vec/BTreeSet moves never move Box<str> buffers; derive(Clone) is field-wise); allocation ids are never reused in the model (the harness enforces the same with a quarantining allocator); tools/extractors/c10.py (exact-text recognition of ensure_index, get_term, get_index, the two Clone shapes — any other impl, e.g. an added clone_from override, fails closed —, the two term-type shapes, from_term, from_term_ref, ensure_owned, the fields of the four stores, the eight public aliases, the list of methods of every impl block of the index and the stores, the files of inmem/src and the number of `unsafe` tokens in each, and the fragments of mownstr's source behind Gen.mownStr: a new safe method, field, file, alias or mownstr version fails closed as `no-failing-input-found`); the hook's pointer arithmetic; harness/props/c10/build.rs (text test for the hook and for the term type: a wrong guess does not compile). A store whose audit reports an outside pointer is never read, cloned or Debug-formatted by the checker, a kept clone of a lent term is never dereferenced (no UB inside the check). Lookups in the model compare key CONTENT (Term::eq), hashing is abstracted (C02). value_semantics is equality of views (terms in index order + rows), i.e. stronger than the digest the differential compares. Index-full is exercised on every run through `I6`, an Index type of the harness with MAX = 6, proved for every MAX, and checked on the REAL u16 width at exactly 65535 terms by the requests `F <kind> 16` (implementation: fill 65535 distinct terms, two more new terms must be refused, a known one answered, audit clean with exactly 65535 entries); the list-based model would need ~15 min to replay 65535 insertions, so for these requests the driver does NOT evaluate the model: it answers with the instance max = 65535 of ensure_index_full_refused / ensure_index_known / index_sized / audit_clean (an oracle by theorem, not by simulation). quads_matching / triples_matching are C01's; get_index's temporary `as_simple` copy of a quoted triple is heap-neutral and not modelled. Miri/ASan are not part of the verdict (Miri was used once, by hand, to confirm the finding's witness). No native_decide. Known finding (recorded, not repaired; the proposed repair changes a public associated type and was not applied): C10-lent-term-clone-outlives-store.",
+    "level_note": "Trusted: the ownership model's reading of std (HashMap/Vec/BTreeSet moves never move Box<str> buffers; derive(Clone) is field-wise); allocation ids are never reused in the model (the harness enforces the same with a quarantining allocator); tools/extractors/c10.py (exact-text recognition of ensure_index, get_term, get_index, the two Clone shapes — any other impl, e.g. an added clone_from override, fails closed —, the two term-type shapes, from_term, from_term_ref, ensure_owned, the fields of the four stores, the eight public aliases, the list of methods of every impl block of the index and the stores, the files of inmem/src and the number of `unsafe` tokens in each, and the fragments of mownstr's source behind Gen.mownStr: a new safe method, field, file, alias or mownstr version fails closed as `no-failing-input-found`); the hook's pointer arithmetic; harness/props/c10/build.rs (text test for the hook and for the term type: a wrong guess does not compile). A store whose audit reports an outside pointer is never read, cloned or Debug-formatted by the checker, a kept clone of a lent term is never dereferenced (no UB inside the check). Lookups in the model compare key CONTENT (Term::eq), hashing is abstracted (C02). value_semantics is equality of views (terms in index order + rows), i.e. stronger than the digest the differential compares. Index-full is exercised on every run through `I6`, an Index type of the harness with MAX = 6, proved for every MAX, and checked on the REAL u16 width at exactly 65535 terms by the requests `F <kind> 16` (implementation: fill 65535 distinct terms, two more new terms must be refused, a known one answered, audit clean with exactly 65535 entries); the list-based model would need ~15 min to replay 65535 insertions, so for these requests the driver does NOT evaluate the model: it answers with the instance max = 65535 of ensure_index_full_refused / ensure_index_known / index_sized / audit_clean (an oracle by theorem, not by simulation). quads_matching / triples_matching are C01's; get_index's temporary `as_simple` copy of a quoted triple is heap-neutral and not modelled. LIMIT — release-only memory errors: the harness is a dev build (debug assertions on, as `cargo test` builds; check.py / cb.py make no release build), so a change whose out-of-bounds / dangling access is guarded by a `debug_assert!` and only happens in --release (seed C10-e: `get_term` with `debug_assert!(i < len)` + `get_unchecked`) cannot be EXECUTED into a failing input here: it is caught through the source-shape obligations (pinned body of get_term, number of `unsafe` tokens per file, pinned impl/method lists), i.e. as `no-failing-input-found`, not by execution. The dev-visible half IS executed: op `gt <n> <i>` calls get_term with indices the store never handed out (empty index, an index minted by a grown clone used on the original, exactly len(), after take) and the oracle demands the panic, so a removed bounds check WITHOUT the debug_assert yields a concrete history (notes/mutations/C10-get-term-unchecked-no-debug-assert.diff). Miri/ASan are not part of the verdict (Miri was used once, by hand, to confirm the finding's witness). No native_decide. Known finding (recorded, not repaired; the proposed repair changes a public associated type and was not applied): C10-lent-term-clone-outlives-store.",
     "tables": ["clone_kind", "mownstr_shape"],
     "lean_targets": ["SophiaProofs.Props.C10", "SophiaProofs.Audit.C10"],
     "theorems": ["sc_preserved", "winv_self_contained", "audit_clean_self_contained", "no_dangling", "read_after_history", "clone_same_content", "clone_same_quads", "clone_independent", "clone_independent_run", "derive_clone_dangles", "derive_not_safe", "no_dangling_partial", "c10_verdict", "unwrap_unchecked_safe", "unwrap_unchecked_safe_gen", "ensure_owned_sound",
                  "cloneKind_is", "c10_holds_gen", "mv_same_content", "box_same_content", "swap_same_content", "take_same_content", "clone_original_unchanged", "ensure_index_full_refused", "ensure_index_known", "escape_dangles", "c10_full_refuted", "escape_bounded_safe", "c10_full_partial", "c10_full_verdict", "index_sized", "audit_key_found", "key_reads_defined", "audit_clean_partial", "audit_clean", "audit_clean_run", "keys_unique", "ensure_owned_branches_agree", "from_term_sound", "mownstr_as_modelled", "moves_keep_buffers", "value_semantics_step", "value_semantics", "index_refines", "clone_is_copy", "reachable_store_inv", "unwrap_unchecked_safe_reachable"],
     "native_ok": [],
     "trivial_re": r"^$",
-    "rule": "one request = one self-contained history over up to six named stores and three kept terms: the kernel-checked witnesses (derive_clone_dangles, escape_dangles); per store type (Light/Fast x dataset/graph + bare SimpleTermIndex, x u32 / u16 / usize / six-term I6) three scripted escape histories (keep a clone of a lent literal / language string / quoted triple, then drop, mutate, grow, Box, move, take, clone_from the source; from a clone; with owned-string input); for u32/u16/usize the scripted patterns (insert 100, clone, drop original, read clone; clone dropped first; swap then drop either side; clone_from over a non-empty target, and for every store type clone_from over a destination holding MORE terms than the source / fewer / an empty source, twice; mem::take / Box / move / chains of clones losing their links one by one) and growth histories crossing the hash table's 2^k thresholds before and after cloning on original and clone (100..600 terms quick, ..2000 thorough; literal / IRI / owned quoted-triple / language-tagged keys); for I6 the index-full patterns (fill until refused, refused again twice, known term still answered, Debug, clone of a full index, refusals on the clone, drops in both orders; with owned-string input through clone_from / swap / take / Box; refusal in the MIDDLE of a quad); plus `F <kind> 16`: a real 16-bit index at exactly 65535 terms (TI, LG, FD quick; all five thorough); plus random histories (6..32 ops quick, ..60 thorough; a third fed through owned-string accessors) over ins/rem/ens/fill/clone/clone_from/drop/swap/mv/box/take/all/dbg/esc/resc/desc/via with terms from small colliding alphabets (empty strings, nested quoted triples, case-variant tags); after EVERY op, for EVERY live store: audit vector (hook) and content digest (only stores safe to read) vs. the model, content vs. a value-semantics specification, and for every kept term whether it points into released memory; counters reach.* in the evidence say how often index-full (first term / mid-quad / in fill), clones of full indexes and drops after esc are reached; distinct = distinct histories",
+    "rule": "one request = one self-contained history over up to six named stores and three kept terms: the kernel-checked witnesses (derive_clone_dangles, escape_dangles); per store type (Light/Fast x dataset/graph + bare SimpleTermIndex, x u32 / u16 / usize / six-term I6) three scripted escape histories (keep a clone of a lent literal / language string / quoted triple, then drop, mutate, grow, Box, move, take, clone_from the source; from a clone; with owned-string input); for u32/u16/usize the scripted patterns (insert 100, clone, drop original, read clone; clone dropped first; swap then drop either side; clone_from over a non-empty target, and for every store type clone_from over a destination holding MORE terms than the source / fewer / an empty source, twice; mem::take / Box / move / chains of clones losing their links one by one) and growth histories crossing the hash table's 2^k thresholds before and after cloning on original and clone (100..600 terms quick, ..2000 thorough; literal / IRI / owned quoted-triple / language-tagged keys); for I6 the index-full patterns (fill until refused, refused again twice, known term still answered, Debug, clone of a full index, refusals on the clone, drops in both orders; with owned-string input through clone_from / swap / take / Box; refusal in the MIDDLE of a quad); plus `F <kind> 16`: a real 16-bit index at exactly 65535 terms (TI, LG, FD quick; all five thorough); plus random histories (6..32 ops quick, ..60 thorough; a third fed through owned-string accessors) over ins/rem/ens/fill/clone/clone_from/drop/swap/mv/box/take/all/dbg/esc/resc/desc/via/gt (get_term with a raw index, in and out of range; per bare-index width a scripted out-of-range history) with terms from small colliding alphabets (empty strings, nested quoted triples, case-variant tags); after EVERY op, for EVERY live store: audit vector (hook) and content digest (only stores safe to read) vs. the model, content vs. a value-semantics specification, and for every kept term whether it points into released memory; counters reach.* in the evidence say how often index-full (first term / mid-quad / in fill), clones of full indexes and drops after esc are reached; distinct = distinct histories",
     "trusted_base": ["ownership model of std / mownstr (lean/SophiaModel/Model/Heap.lean header)",
                      "tools/extractors/c10.py (exact-text recognition, fail-closed)",
                      "hook SimpleTermIndex::verif_audit (notes/hooks/C10-audit.diff): pointer-range comparison",
